@@ -42,12 +42,15 @@ V2IsSomeAlignment == (Pat # <<>> /\ Res("v2", TRUE).s >= 0) => Res("v2", TRUE).s
 V2NotAboveBest == (Pat # <<>> /\ Res("v2", TRUE).s >= 0) => Res("v2", TRUE).sc <= SetMax(AlignScores)
 V2DirSameScore == Res("v2", TRUE).sc = Res("v2", FALSE).sc
 V1NotAboveV2 == Res("v1", TRUE).sc <= Res("v2", TRUE).sc /\ Res("v1", FALSE).sc <= Res("v2", TRUE).sc
+(* cutting long runs of one character down to Len(P) + 2 keeps / creates no witness: justifies judging giant lines *)
+RleSound == \A k \in KindSet : Pat # <<>> =>
+               (Witness(k, Text, Pat, Cs, Nrm, Sch) <=> Witness(k, Shortened(Text, Pat), Pat, Cs, Nrm, Sch))
 Thm(name, ok) == ok \/ PrintT(<<"THMFAIL", ToJson([thm |-> name, t |-> Text, p |-> Pat, cs |-> Cs, norm |-> Nrm, sch |-> Sch])>>)
 Theorems == Live =>
     /\ Thm("AgreeWitness", AgreeWitness) /\ Thm("ResultsValid", ResultsValid) /\ Thm("GreedyComplete", GreedyComplete)
     /\ Thm("V1SpanTight", V1SpanTight) /\ Thm("V2IsSomeAlignment", V2IsSomeAlignment)
     /\ Thm("V2NotAboveBest", V2NotAboveBest) /\ Thm("V2DirSameScore", V2DirSameScore)
-    /\ Thm("V1NotAboveV2", V1NotAboveV2)
+    /\ Thm("V1NotAboveV2", V1NotAboveV2) /\ Thm("RleSound", RleSound)
 
 -------------------------------------------------------------------------------
 (* Case export (E): per live input the predicted result of all seven matchers in both scan directions, without a *)
